@@ -22,6 +22,22 @@
 @fn Exp::linearize @after "linearizer_context.declare_variable(vx_a5"
     let ghost c3 = *linearizer_context;
     proof { lemma_lz_ext_trans(c0, c2, c3); }
+@fn Exp::linearize @before "linearizer_context.add_constraint(vx_a7)"
+    proof { lemma_exp_fin(vx_a7.lhs); }
+@fn Exp::linearize @before "linearizer_context.add_constraint(vx_a8)"
+    proof { lemma_exp_fin(vx_a8.lhs); lemma_exp_fin(vx_a8.rhs); }
+@fn Exp::linearize @before "linearizer_context.add_constraint(vx_a11)"
+    proof {
+        lemma_f_mul_by(inner_bounds.lower);
+        let e = vx_a11.rhs; let m = *e->BinOp_2; let s2 = *m->BinOp_2;
+        lemma_exp_fin(vx_a11.lhs); lemma_exp_fin(e); lemma_exp_fin(m); lemma_exp_fin(*m->BinOp_1); lemma_exp_fin(s2); lemma_exp_fin(*s2->BinOp_1); lemma_exp_fin(*s2->BinOp_2);
+    }
+@fn Exp::linearize @before "linearizer_context.add_constraint(vx_a12)"
+    proof {
+        lemma_f_mul_by(inner_bounds.upper);
+        let e = vx_a12.rhs; let m = *e->BinOp_2; let ng = *e->BinOp_1;
+        lemma_exp_fin(vx_a12.lhs); lemma_exp_fin(e); lemma_exp_fin(ng); lemma_exp_fin(m); lemma_exp_fin(*m->BinOp_1); lemma_exp_fin(*m->BinOp_2);
+    }
 @fn Exp::linearize @after "linearizer_context.add_constraint(vx_a7)"
     let ghost c4 = *linearizer_context;
     proof { lemma_lz_ext_trans(c0, c3, c4); }
